@@ -199,6 +199,15 @@ def run_loop(ex, node, kind):
         i = as_arith(ex.lookup(idx_name))
         lst = aux['list']
         P.assume(z3.And(i >= 0))
+        if spec.get('iter_raises') and P.choose(2) == 1:
+            # the sequence is lazy (a generator over the caller's iterable): fetching the next element may raise,
+            # at any position including before the first
+            from .core import PyExc, VExc
+            ir = spec['iter_raises']
+            if isinstance(ir, dict):
+                P.assume(ex.spec_bool(ir['when']))
+                ir = ir['exc']
+            raise PyExc(VExc(ir, []))
         ln = P.read_field(lst, 'len').e
         if z3.is_expr(ln) and z3.is_expr(aux['len0']) and ln.eq(aux['len0']):
             # the loop does not change the length of the list it walks (its
